@@ -49,7 +49,9 @@ D2 == {MkBin(k, x, Par(b)) : k \in BinOps, x \in Atoms, b \in D1}
       \cup {MkBin(k, Neg(x), y) : k \in BinOps, x \in Atoms, y \in Atoms}
 Bounded(v) == Abs(v.a[1]) <= 150 * v.a[2] /\ Abs(v.a[1]) <= 20000 /\ v.a[2] <= 20000 /\ Abs(v.b[1]) <= 2000 /\ v.b[2] <= 2000 /\ Abs(v.b[1]) <= 40 * v.b[2]
 ValidClosed(e) == WellFormedExpr(e, 0) /\ LET v == Eval(e, <<>>) IN v.st = "val" /\ Bounded(v)
-ExprSet == {e \in Atoms \cup {Neg(a) : a \in Atoms} \cup D1 \cup D2 : ValidClosed(e)}
+\* (filtered per top-level operator inside the Expand action, i.e. by TLC's workers in parallel, not at start-up)
+ExprCandidates == Atoms \cup {Neg(a) : a \in Atoms} \cup D1 \cup D2
+ExprSetOf(kind) == {e \in ExprCandidates : e.k = kind /\ ValidClosed(e)}
 Q1 == <<Reg("q", 1)>>
 ExprProgram(e) == Program(Q1, <<>>, <<>>, <<App("rz", <<e>>, <<QA("q", 0)>>)>>)
 
@@ -62,7 +64,7 @@ B2 == {MkBin(k, x, Par(b)) : k \in {"sub", "mul", "div"}, x \in Formals, b \in {
       \cup {Neg(Par(b)) : b \in {c \in B1 : c.k \in {"add", "sub"}}}
       \cup {Neg(x) : x \in Formals}
 Actuals == IF Size = 0
-           THEN {<<Num(1, 0, FALSE), MkBin("div", Pi, Num(4, 0, FALSE))>>, <<Neg(Par(MkBin("add", Num(1, 0, FALSE), Num(2, 0, FALSE)))), Num(25, -2, FALSE)>>}
+           THEN {<<Neg(Par(MkBin("add", Num(1, 0, FALSE), Num(2, 0, FALSE)))), MkBin("div", Pi, Num(4, 0, FALSE))>>}
            ELSE {<<Num(1, 0, FALSE), MkBin("div", Pi, Num(4, 0, FALSE))>>, <<Neg(Par(MkBin("add", Num(1, 0, FALSE), Num(2, 0, FALSE)))), Num(25, -2, FALSE)>>,
                  <<MkBin("sub", Pi, Num(1, 0, FALSE)), Num(3, 0, FALSE)>>, <<Num(5, -1, FALSE), Neg(Pi)>>}
 G0Of(b) == [name |-> "g0", np |-> 2, nq |-> 1, body |-> <<BodySt("rz", <<b>>, <<1>>)>>]
@@ -73,9 +75,11 @@ Q2 == <<Reg("q", 2)>>
 BindDirect(b, a) == Program(Q1, <<>>, <<G0Of(b)>>, <<App("g0", a, <<QA("q", 0)>>)>>)
 BindNested(b, a) == Program(Q2, <<>>, <<G0Of(b), G1>>, <<App("g1", <<a[1]>>, <<QA("q", 1), QA("q", 0)>>)>>)
 BodyOK(b) == WellFormedExpr(b, 2)
-BindSet == {p \in {BindDirect(b, a) : b \in Formals \cup B1 \cup B2, a \in Actuals}
-                  \cup {BindNested(b, a) : b \in Formals \cup B1 \cup B2, a \in Actuals} :
-              GeneratorError(p) = "" /\ \A i \in 1..Len(Flat(p)) : \A j \in 1..Len(Flat(p)[i].p) : Abs(Flat(p)[i].p[j].v) <= 400000}
+SmallValues(Fl) == \A i \in 1..Len(Fl) : \A j \in 1..Len(Fl[i].p) : Abs(Fl[i].p[j].v) <= 400000
+BindBodies == Formals \cup B1 \cup B2
+BindSetOf(kind, n) == {p \in (IF n = 1 THEN {BindDirect(b, a) : b \in {x \in BindBodies : x.k = kind}, a \in Actuals}
+                                       ELSE {BindNested(b, a) : b \in {x \in BindBodies : x.k = kind}, a \in Actuals}) :
+                         GeneratorError(p) = "" /\ SmallValues(Flat(p))}
 
 \* ------------------------------------------------------------------ family "struct"
 Layouts == IF Size = 0 THEN {<<Reg("q", 2)>>, <<Reg("q", 1), Reg("r", 2)>>, <<Reg("q", 2), Reg("r", 2)>>}
@@ -127,23 +131,34 @@ Menu(P) ==
   \cup {Reset(a) : a \in Args(P)}
 
 \* ------------------------------------------------------------------ the state machine: one state = one program
-Init == \/ "expr" \in Fams /\ fam = "expr" /\ prog \in {ExprProgram(e) : e \in ExprSet}
-        \/ "bind" \in Fams /\ fam = "bind" /\ prog \in BindSet
+\* The expr and bind families are reached from a handful of seed states (one per top-level operator), so that TLC's
+\* workers share the work of checking the invariants on them; a seed state is not a program.
+Kinds == {"num", "pi", "var", "neg", "par", "add", "sub", "mul", "div", "pow"}
+Seeds == {[f |-> "expr", b |-> k, n |-> 0] : k \in Kinds} \cup {[f |-> "bind", b |-> k, n |-> n] : k \in Kinds, n \in {1, 2}}
+Init == \/ fam = "seed" /\ prog \in {s \in Seeds : s.f \in Fams}
         \/ "struct" \in Fams /\ fam = "struct" /\ prog \in StructInit
+Expand == /\ fam = "seed"
+          /\ \/ prog.f = "expr" /\ fam' = "expr" /\ prog' \in {ExprProgram(e) : e \in ExprSetOf(prog.b)}
+             \/ prog.f = "bind" /\ fam' = "bind" /\ prog' \in BindSetOf(prog.b, prog.n)
 \* the quick configuration stops after one statement on the four-qubit layout
 Budget(P) == IF Size = 0 /\ NQ(P) >= 4 THEN 1 ELSE MaxStmts
 AddStmt == /\ fam = "struct" /\ Len(prog.stmts) < Budget(prog)
            /\ \E s \in Menu(prog) : prog' = [prog EXCEPT !.stmts = Append(@, s)]
            /\ UNCHANGED fam
-Next == AddStmt
+Next == AddStmt \/ Expand
 Spec == Init /\ [][Next]_<<fam, prog>>
 
 \* ------------------------------------------------------------------ internal consistency of QasmSem on every program
-F == Flat(prog)
+IsProgram == fam # "seed"
+\* The checks below take the flat denotation Fl = Flat(prog) as an argument and are conjoined in ONE invariant, so that
+\* Flat is applied at a single place (TLC's -coverage instruments every application site of an operator separately and
+\* the evaluator under Flat is deep: six separate invariants cost minutes of start-up).  Named() tells which one failed.
+Named(n, b) == IF b THEN TRUE ELSE PrintT(<<"CONSISTENCY-CHECK-FAILS", n>>) /\ FALSE
+
 \* (1) every generated tree is in the language and inside the exact value domain
-Generated == GeneratorError(prog) = ""
+Generated(Fl) == WellFormed(prog) /\ FlatError(Fl) = ""
 \* (2) flat qubit indices are in range and distinct inside an operation
-InRange == \A i \in 1..Len(F) : Distinct(F[i].q) /\ \A j \in 1..Len(F[i].q) : F[i].q[j] \in 0..NQ(prog) - 1
+InRange(Fl) == \A i \in 1..Len(Fl) : Distinct(Fl[i].q) /\ \A j \in 1..Len(Fl[i].q) : Fl[i].q[j] \in 0..NQ(prog) - 1
 \* (3) expanding a user gate by binding VALUES (QasmSem) equals inlining its body by hand with the actual
 \*     EXPRESSIONS substituted (in parentheses) for the formals -- the two readings of a gate call in the paper
 RECURSIVE Subst(_, _)
@@ -165,16 +180,18 @@ SameFlat(A, B) == /\ Len(A) = Len(B)
                   /\ \A i \in 1..Len(A) : /\ A[i].g = B[i].g /\ A[i].q = B[i].q /\ A[i].cr = B[i].cr /\ A[i].ci = B[i].ci
                                           /\ Len(A[i].p) = Len(B[i].p)
                                           /\ \A j \in 1..Len(A[i].p) : A[i].p[j].v = B[i].p[j].v /\ A[i].p[j].known = B[i].p[j].known
-InlineInvariant == SameFlat(F, Flat(Inlined(prog))) /\ SameFlat(F, Flat(Inlined(Inlined(prog))))
 \* (4) laws of the exact arithmetic on every enumerated expression
 ExprLaws == fam = "expr" =>
   LET e == prog.stmts[1].p[1]
-      v == Eval(e, <<>>) IN
-  /\ Scaled(Eval(Par(e), <<>>)) = Scaled(v)
-  /\ Scaled(Eval(Neg(Par(e)), <<>>)) = -Scaled(v)
-  /\ Scaled(Eval(MkBin("sub", e, Par(e)), <<>>)) = 0
-  /\ Eval(MkBin("add", Par(e), Neg(Par(e))), <<>>).a = RZero
-  /\ Eval(MkBin("mul", Par(e), Num(1, 0, FALSE)), <<>>).b = v.b
+      tests == <<e, Par(e), Neg(Par(e)), MkBin("sub", e, Par(e)), MkBin("add", Par(e), Neg(Par(e))), MkBin("mul", Par(e), Num(1, 0, FALSE))>>
+      w == TLCEval([i \in 1..6 |-> Eval(tests[i], <<>>)])
+      sc == TLCEval([i \in 1..4 |-> Scaled(w[i])])
+      v == w[1] IN
+  /\ sc[2] = sc[1]
+  /\ sc[3] = -sc[1]
+  /\ sc[4] = 0
+  /\ w[5].a = RZero
+  /\ w[6].b = v.b
   /\ v.a[2] > 0 /\ v.b[2] > 0 /\ Gcd(Abs(v.a[1]), v.a[2]) = 1 /\ Gcd(Abs(v.b[1]), v.b[2]) = 1
 \* (5) the comparison accepts the denotation itself and rejects it with the last operation dropped,
 \*     the first one renamed, or one more qubit
@@ -184,17 +201,28 @@ AsObserved(ops) == [i \in 1..Len(ops) |->
 DropLast(ops) == SubSeq(ops, 1, Len(ops) - 1)
 Renamed(ops) == [i \in 1..Len(ops) |-> IF i = 1 THEN [ops[i] EXCEPT !.g = "zzz"] ELSE ops[i]]
 Obs(ops) == [status |-> "ok", err |-> "", nq |-> NQ(prog), ops |-> ops]
-ComparisonSound ==
-  LET good == AsObserved(F)
+ComparisonSound(Fl) ==
+  LET good == AsObserved(Fl)
       tests == <<Obs(good), Obs(DropLast(good)), Obs(Renamed(good)), [Obs(good) EXCEPT !.nq = @ + 1]>>
-  IN \A i \in 1..(IF Len(F) >= 1 THEN 4 ELSE 1) : (JudgeWith(prog, tests[i], TRUE, F)[1] = "ok") = (i = 1)
+  IN \A i \in 1..(IF Len(Fl) >= 1 THEN 4 ELSE 1) : (JudgeWith(prog, tests[i], TRUE, Fl)[1] = "ok") = (i = 1)
 \* (6) per-qubit projection loses nothing
 RECURSIVE SumLen(_, _)
 SumLen(ops, i) == IF i > Len(ops) THEN 0 ELSE Len(ops[i].q) + SumLen(ops, i + 1)
-RECURSIVE SumPer(_)
-SumPer(q) == IF q < 0 THEN 0 ELSE Len(PerQubit(F, q)) + SumPer(q - 1)
-ProjectionComplete == SumPer(NQ(prog) - 1) = SumLen(F, 1)
+RECURSIVE SumPer(_, _)
+SumPer(Fl, q) == IF q < 0 THEN 0 ELSE Len(PerQubit(Fl, q)) + SumPer(Fl, q - 1)
+ProjectionComplete(Fl) == SumPer(Fl, NQ(prog) - 1) = SumLen(Fl, 1)
+
+\* the three flat lists needed: of the program, of it with user gates inlined once, and twice
+Consistent == IsProgram =>
+  LET ps == <<prog, Inlined(prog), Inlined(Inlined(prog))>>
+      fl == TLCEval([i \in 1..3 |-> Flat(ps[i])]) IN
+  /\ Named("Generated", Generated(fl[1]))
+  /\ Named("InRange", InRange(fl[1]))
+  /\ Named("InlineInvariant", SameFlat(fl[1], fl[2]) /\ SameFlat(fl[1], fl[3]))
+  /\ Named("ExprLaws", ExprLaws)
+  /\ Named("ComparisonSound", ComparisonSound(fl[1]))
+  /\ Named("ProjectionComplete", ProjectionComplete(fl[1]))
 
 \* export of every program to the harness (runs once per distinct state)
-Export == PrintT(<<"AST", fam, ToJson(prog)>>)
+Export == IsProgram => PrintT(<<"AST", fam, ToJson(prog)>>)
 =============================================================================
